@@ -47,6 +47,50 @@ func compiledOutputs(p *load.Program, run *report.Run, rule, relPkg, recv, fname
 		gens = map[string]ast.Expr{}
 	}
 	_, stream := dispatch.FindFunc(p, relPkg, recv, fname)
+	if spkg != nil && stream != nil {
+		// the compile step may live in a helper of the named function (bin -> binCircuit)
+		hasCompile := func(fd *ast.FuncDecl) bool {
+			found := false
+			ast.Inspect(fd.Body, func(n ast.Node) bool {
+				if c, ok := n.(*ast.CallExpr); ok {
+					if sel, ok := c.Fun.(*ast.SelectorExpr); ok && sel.Sel.Name == "Compile" && len(c.Args) == 0 {
+						found = true
+					}
+				}
+				return !found
+			})
+			return found
+		}
+		if !hasCompile(stream) {
+			decls := map[types.Object]*ast.FuncDecl{}
+			for _, f := range spkg.Syntax {
+				for _, d := range f.Decls {
+					if fd, ok := d.(*ast.FuncDecl); ok && fd.Body != nil {
+						decls[spkg.TypesInfo.Defs[fd.Name]] = fd
+					}
+				}
+			}
+			var helper *ast.FuncDecl
+			ast.Inspect(stream.Body, func(n ast.Node) bool {
+				if c, ok := n.(*ast.CallExpr); ok && helper == nil {
+					var obj types.Object
+					switch f := c.Fun.(type) {
+					case *ast.Ident:
+						obj = spkg.TypesInfo.Uses[f]
+					case *ast.SelectorExpr:
+						obj = spkg.TypesInfo.Uses[f.Sel]
+					}
+					if h := decls[obj]; h != nil && h != stream && hasCompile(h) {
+						helper = h
+					}
+				}
+				return true
+			})
+			if helper != nil {
+				stream = helper
+			}
+		}
+	}
 	if cpkg == nil || spkg == nil || gens == nil || stream == nil {
 		run.Undecided(rule, relPkg+"."+recv+"."+fname, "", "anchors not found")
 		return
